@@ -6,7 +6,7 @@
    The loop is written ONCE, generically in the type of the input items and of the parsed
    segments, in the result monad:
      - names level   : items are segment names, a "parsed segment" is the upper-cased name, no
-                       admission checks                         (find_groups_names)
+                       acceptance checks                         (find_groups_names)
      - segment level : items are the CR-separated pieces of the message text, stripped, the blank
                        ones skipped (parser.py strips the piece BEFORE taking its name), segments are
                        parsed by Model/Parser.parse_segment with the reference found, groups are
@@ -222,7 +222,7 @@ Variable mkseg : X -> option sref -> result A.         (* parse_segment(s.strip(
 Variable nm : A -> str.                                (* segment.name *)
 (* parent.add(child) for a Group parent: (name, reference, structure) of the parent, names of the
    children it has, name of the new child *)
-Variable admission : str * sref * structure -> list str -> str -> result unit.
+Variable acceptance : str * sref * structure -> list str -> str -> result unit.
 Variable root : sref.                                  (* the `references` argument *)
 
 Record gstate := mk_gstate { g_stack : list entry; g_path : list nat; g_forest : gforest A }.
@@ -241,7 +241,7 @@ Definition cur_group (s : gstate) : result (option (str * sref * structure * gfo
 Definition add_child (s : gstate) (x : gtree A) : result gstate :=
   do c <- cur_group s;
   do _ <- match c with
-          | Some (n, r, st, cs) => admission (n, r, st) (map (child_name nm) cs) (child_name nm x)
+          | Some (n, r, st, cs) => acceptance (n, r, st) (map (child_name nm) cs) (child_name nm x)
           | None => Ok tt
           end;
   Ok (mk_gstate (g_stack s) (g_path s) (append_at (g_path s) x (g_forest s))).
@@ -344,9 +344,9 @@ Arguments mk_gstate {A}. Arguments g_stack {A}. Arguments g_path {A}. Arguments 
 
 (* ---------- names level ---------- *)
 Definition ntree := gtree str.
-Definition no_admission (_ : str * sref * structure) (_ : list str) (_ : str) : result unit := Ok tt.
+Definition no_acceptance (_ : str * sref * structure) (_ : list str) (_ : str) : result unit := Ok tt.
 Definition find_groups_names (t : tables) (root : sref) (names : list str) : result (list ntree) :=
-  find_groups t str str (fun n => n) (fun n _ => Ok (upper n)) (fun n => n) no_admission root names.
+  find_groups t str str (fun n => n) (fun n _ => Ok (upper n)) (fun n => n) no_acceptance root names.
 
 (* canonical text of a forest of names: segments by name, groups as (NAME child child ...) *)
 Fixpoint dump_ntree (x : ntree) : str :=
@@ -411,13 +411,13 @@ Definition child_card_ok (st : option structure) (child : str) (have : list str)
   negb ((Z.of_nat (count_str child have) + 1 >? mx)%Z && (mx >? -1)%Z).
 
 (* parent.add(child) for a Group (is_msg = false) or Message parent *)
-Definition child_admission (is_msg : bool) (pname : option str) (st : option structure)
+Definition child_acceptance (is_msg : bool) (pname : option str) (st : option structure)
            (have : list str) (child : str) : result unit :=
   do _ <- find_child_check is_msg pname st child;
   if child_card_ok st child have then Ok tt else Err (HL7 EMaxChildLimitReached).
 
-Definition group_admission (p : str * sref * structure) (have : list str) (child : str) : result unit :=
-  match p with (n, _, st) => child_admission false (Some n) (Some st) have child end.
+Definition group_acceptance (p : str * sref * structure) (have : list str) (child : str) : result unit :=
+  match p with (n, _, st) => child_acceptance false (Some n) (Some st) have child end.
 
 (* `for s in text.split('\r'): s = s.strip(); if len(s) > 0: ...` : the pieces of the text, each
    STRIPPED first, those that are empty after stripping skipped.  The segment name used by the group
@@ -431,7 +431,7 @@ Definition seg_of_piece (s : str) (r : option sref) : result seg :=
   parse_segment t lvl e leaf_enc (strip s) r.
 
 Definition parse_segments_grouped_trees (root : sref) (text : str) : result (list (gtree seg)) :=
-  find_groups t str seg (take 3) seg_of_piece s_name group_admission root (pieces text).
+  find_groups t str seg (take 3) seg_of_piece s_name group_acceptance root (pieces text).
 
 Fixpoint node_of (x : gtree seg) : node :=
   match x with
